@@ -58,6 +58,20 @@ type Log struct {
 	seq    int64
 	calls  int64
 	Events []*Event
+	Sent   [][]byte // body of every answer actually sent (after fault injection)
+}
+
+func (l *Log) addSent(b []byte) {
+	l.mu.Lock()
+	l.Sent = append(l.Sent, b)
+	l.mu.Unlock()
+}
+
+// SentBodies returns a copy of the bodies sent so far.
+func (l *Log) SentBodies() [][]byte {
+	l.mu.Lock()
+	defer l.mu.Unlock()
+	return append([][]byte{}, l.Sent...)
 }
 
 func (l *Log) add(e *Event) {
@@ -331,7 +345,13 @@ func (s *Service) ServeBytes(req *http.Request, contentType string, body []byte)
 		for _, e := range evs {
 			e.Fault = fault.Kind
 		}
-		return applyFault(req, fault, resps, isArray)
+		resp, err := applyFault(req, fault, resps, isArray)
+		if resp != nil && resp.Body != nil {
+			b, _ := io.ReadAll(resp.Body)
+			s.Log.addSent(b)
+			resp.Body = io.NopCloser(bytes.NewReader(b))
+		}
+		return resp, err
 	}
 	var out []byte
 	if isArray {
@@ -339,22 +359,23 @@ func (s *Service) ServeBytes(req *http.Request, contentType string, body []byte)
 	} else {
 		out, _ = json.Marshal(resps[0])
 	}
+	s.Log.addSent(out)
 	return jsonResp(req, 200, out), nil
 }
 
 // FaultKinds lists the single-fault kinds understood by applyFault.  The first
 // group are "failure signals" in the sense of C09.
 var FaultKinds = []string{
-	"transport-error", "status-500", "non-json", "not-array", "short-array", "long-array",
+	"transport-error", "status-500", "status-502-valid-body", "status-404-valid-body", "non-json", "not-array", "short-array", "long-array",
 	"errors", "errors+data", "missing-data", "missing-node", "node-wrong-type",
 	// shape contradictions (not failure signals):
-	"data-null", "node-null", "shape-scalar-for-object", "shape-object-for-list", "shape-list-nonmap", "shape-id-missing", "shape-id-nonstring", "shape-null-nonnull",
+	"data-null", "node-null", "shape-scalar-for-object", "shape-object-for-list", "shape-list-nonmap", "shape-id-missing", "shape-id-nonstring", "shape-null-nonnull", "shape-list-for-object", "shape-emptylist-for-object",
 }
 
 // IsFailureSignal reports whether kind is in the C09 list "up to and including a mistyped node".
 func IsFailureSignal(kind string) bool {
 	switch kind {
-	case "transport-error", "status-500", "non-json", "not-array", "short-array", "long-array",
+	case "transport-error", "status-500", "status-502-valid-body", "status-404-valid-body", "non-json", "not-array", "short-array", "long-array",
 		"errors", "errors+data", "missing-data", "missing-node", "node-wrong-type":
 		return true
 	}
@@ -370,6 +391,18 @@ func applyFault(req *http.Request, f *Fault, resps []map[string]any, isArray boo
 		return nil, errors.New("fake transport: injected connection failure")
 	case "status-500":
 		return jsonResp(req, 500, []byte(`{"errors":[{"message":"boom"}]}`)), nil
+	case "status-502-valid-body", "status-404-valid-body":
+		code := 502
+		if f.Kind == "status-404-valid-body" {
+			code = 404
+		}
+		var out []byte
+		if isArray {
+			out, _ = json.Marshal(resps)
+		} else if len(resps) > 0 {
+			out, _ = json.Marshal(resps[0])
+		}
+		return jsonResp(req, code, out), nil
 	case "non-json":
 		return jsonResp(req, 200, []byte(`<html>not json</html>`)), nil
 	case "not-array":
@@ -477,6 +510,12 @@ func shapeCorrupt(kind string, data map[string]any) map[string]any {
 			case "shape-scalar-for-object":
 				done = true
 				return Sentinel
+			case "shape-list-for-object":
+				done = true
+				return []any{x, Sentinel}
+			case "shape-emptylist-for-object":
+				done = true
+				return []any{}
 			case "shape-id-missing":
 				if _, ok := x["id"]; ok {
 					done = true
